@@ -164,9 +164,9 @@ pub unsafe extern "C" fn mmap(addr: *mut c_void, len: size_t, prot: c_int, flags
         }
         Some(p) if p.free.is_some() => {
             let free = p.free.as_ref().unwrap();
-            if free.contains(&(hint & !0xfff)) {
+            if (hint & !0xfff) != 0 && free.contains(&(hint & !0xfff)) {
                 how = "free";
-                raw_mmap(hint, len, prot, flags | libc::MAP_FIXED_NOREPLACE, fd, off)
+                raw_mmap(hint & !0xfff, len, prot, flags | libc::MAP_FIXED_NOREPLACE, fd, off)
             } else {
                 match p.occupied {
                     0 => {
